@@ -26,6 +26,8 @@
 (*  postread   post.Read of the table written last inside such a history      *)
 (*  tagscript  a ScriptList written by the harness through gtab.Read and    *)
 (*             gtab.Info.Encode (ScriptList walked)                         *)
+(*  taglist    a ScriptList by structure / with shared and reordered tables    *)
+(*             through gtab.Read, Encode (walked) and gtab.Read again          *)
 (*  tagback    a BCP 47 tag without private-use part through Encode, several *)
 (*             times in several processes                                   *)
 (*                                                                         *)
@@ -243,6 +245,21 @@ TagScriptOK ==
 
 TagScript == Is("tagscript") /\ Judge(TagScriptOK) /\ UNCHANGED <<langs, info>> /\ Consume
 
+\* A ScriptList written by the harness with one or two scripts, swept by structure (default language
+\* system absent / empty / with features, 0..2 named ones) and using the freedoms of the format (Script
+\* table shared by two script tags, LangSys tables shared, tables not in record order).  map1 / map2 are
+\* the tag -> features maps of gtab.Read before and after Encode, out the walked ScriptList of Encode.
+LSys(x)  == [script |-> x.script, lang |-> x.lang, req |-> x.req, feat |-> Range(x.feat)]
+Feats(x) == [req |-> x.req, feat |-> Range(x.feat)]
+TagListOK ==
+  /\ ~E.panic /\ ~E.readfail /\ ~E.walkfail /\ ~E.read2fail
+  /\ Len(E.map1) = Len(E.in)                                   \* Read delivers a tag for every language system
+  /\ {Feats(x) : x \in Range(E.map1)} = {Feats(x) : x \in Range(E.in)}
+  /\ {LSys(x) : x \in Range(E.out)} = {LSys(x) : x \in Range(E.in)}    \* every (script, language) written again,
+  /\ Len(E.out) = Len(E.in)                                    \* an empty default language system included
+  /\ E.map2 = E.map1                                           \* Encode -> Read returns the same map
+TagList == Is("taglist") /\ Judge(TagListOK) /\ UNCHANGED <<langs, info>> /\ Consume
+
 \* "back" must be a function of the tag: the same answer in every run and process
 TagBackOK ==
   /\ \A i, j \in 1..Len(E.runs) : E.runs[i] = E.runs[j]
@@ -252,7 +269,7 @@ TagBack == Is("tagback") /\ Judge(TagBackOK) /\ UNCHANGED <<langs, info>> /\ Con
 
 Next == LangTable \/ NReset \/ NEncode \/ NDecode \/ NRaw \/ MacByte \/ MacRune \/ MacStr \/ Post \/ PostReadEv
         \/ CodecHistEv
-        \/ TagScript \/ TagBack
+        \/ TagScript \/ TagList \/ TagBack
 Spec == Init /\ [][Next]_vars
 
 Accepted == IF TLCGet(1) = Len(Trace) /\ TLCGet(2) = 0 THEN TRUE
